@@ -1388,6 +1388,8 @@ def _main(rep, tier, seed, replay, scale, plain, tsan, drv_p, drv_a, env_p, env_
                         (case["cfg"], case["lines"]))]
         elif case["part"] == "fault":
             items_f = [(drv_p, env_p, shim, seed, case["idx"], case)]
+        elif case["part"] in ("Bh", "C"):
+            pass            # handled in their own sections below
         else:
             items_b = [(plain.root, tsan.root, case["seed"], case["idx"], case, delays)]
     else:
@@ -1552,9 +1554,11 @@ def _main(rep, tier, seed, replay, scale, plain, tsan, drv_p, drv_a, env_p, env_
                 rep.violation(key, "%s | geometry: %s variant=%s damage=%s" %
                               (what, gc, c["variant"], c["damage"]), replay=case)
     # ---- (B') filesystems with more than 2^32 clusters (sparse), 1 thread vs several ----
-    if not replay:
+    if not replay or case.get("part") == "Bh":
         nh = {"quick": 1, "thorough": 6}[tier] if scale >= 0.5 else 0
         items_h = [(plain.root, seed, i) for i in range(nh)]
+        if replay:
+            items_h = [(plain.root, case["seed"], case["idx"])]
         for it, r in zip(items_h, run.pmap(_run_huge, items_h)):
             gc = "huge bs=%d groups=%d g=%d" % (r["geo"]["bs"], r["geo"]["groups"], r["geo"]["gsize"])
             if r["skip"]:
